@@ -45,10 +45,11 @@ Definition dec_input (x : sx) : option (table * list str * pkt) :=
 
 Definition attrs_sx (a : attrs) : sx :=
   SL [SS (a_type a); SS (a_id a); SS (a_from a); SS (a_to a)].
-Definition err_sx (e : err) : sx :=
-  SL [SZ (e_code e); SS (e_type e); SS (e_reason e); SS (e_text e)].
+(* a sent packet as the harness projects it: IQ, its four attributes, its error
+   condition ("" when it carries none) — nothing else of the reply is compared *)
 Definition reply_sx (r : reply) : sx :=
-  SL [SZ 2; attrs_sx (rp_attrs r); SO SS (rp_ns r); SB (rp_any r); SO err_sx (rp_err r)].
+  SL [SZ 2; attrs_sx (rp_attrs r);
+      SS (match rp_condition r with Some c => c | None => [] end)].
 
 Definition run_typed (inp : table * list str * pkt) : sx :=
   let '(t, pend, p) := inp in
